@@ -518,6 +518,8 @@ fn build_items(args: &Args, out: &mut Out) -> Vec<Item> {
         push("regression", d, "CV06,CV07", true, "(\nSELECT 1\n);\n".into(), "create-after-at-offset-0".into());
         push("regression", d, "convention", false, "()".into(), "cv07-empty-brackets".into());
         push("regression", d, "all", true, "SELECT 1;\n()\n".into(), "cv07-empty-brackets".into());
+        push("regression", d, "AM04", false, "WITH a AS (SELECT * FROM a AS x) SELECT * FROM a AS y\n".into(), "am04-self-referencing-cte".into());
+        push("regression", d, "all", true, "WITH a AS (SELECT * FROM b AS x), b AS (SELECT * FROM a AS z) SELECT * FROM a AS y\n".into(), "am04-self-referencing-cte".into());
     }
 
     // 1. corpus under its own dialect: all+fix for every file; other selections/modes rotate
@@ -699,6 +701,80 @@ fn build_items(args: &Args, out: &mut Out) -> Vec<Item> {
         // one long single line and one file of many tiny statements
         push("large", d, "all", true, format!("SELECT {} FROM t\n", (0..2500).map(|i| format!("c{}", i)).collect::<Vec<_>>().join(", ")), "wide".into());
         push("large", d, "layout", true, "select 1;\n".repeat(1900), "many".into());
+    }
+    // 12. noqa directives next to rule-less violations: unparsable or malformed statements (parse errors and malformed
+    //     directives are violations without a rule) carrying every directive form, line- and block-comment style
+    {
+        let defects = [
+            "SELECT 1 2 3", "SELECT a FROM t WHERE", "SELECT FROM WHERE", "SELECT a,, b FROM t", "SELECT (a FROM t", "SELECT a FROM t)",
+            "INSERT INTO", "CREATE TABLE t (", "SELECT a FROM t GROUP", "SELEC a FROM t", "SELECT a FROM t ORDER BY", "WITH x AS SELECT 1",
+            "SELECT a  from t", "SeLeCt  1 from tBl",
+        ];
+        let directives = [
+            "noqa", "noqa: LT01", "noqa: LT01,CP01", "noqa: PRS", "noqa: disable=all", "noqa: enable=all", "noqa: disable=LT01", "noqa: enable=LT01,CP01",
+            "noqa:", "noqa?", "noqa: disable=", "noqa: enable= ,", "noqa: ,", "noqa:LT01 ", "NOQA", "noqa : LT01", "some text -- noqa: LT01",
+        ];
+        let n = if thorough { 4000 } else { 500 };
+        for i in 0..n {
+            let d = if i % 3 == 0 { DIALECTS[rng.below(DIALECTS.len())] } else { "ansi" };
+            let mut sql = String::new();
+            for _ in 0..rng.range(1, 4) {
+                let stmt = defects[rng.below(defects.len())];
+                let dir = directives[rng.below(directives.len())];
+                match rng.below(6) {
+                    0 => sql.push_str(&format!("{} -- {}\n", stmt, dir)),
+                    1 => sql.push_str(&format!("{} /* {} */\n", stmt, dir)),
+                    2 => sql.push_str(&format!("/* {} */ {} -- {}\n", dir, stmt, directives[rng.below(directives.len())])),
+                    3 => sql.push_str(&format!("-- {}\n{}\n", dir, stmt)),
+                    4 => sql.push_str(&format!("{}; -- {}\n", stmt, dir)),
+                    _ => sql.push_str(&format!("{}\n", stmt)),
+                }
+            }
+            let sel = ["all", "core", "LT01", "layout", "CP01,LT01"][rng.below(5)];
+            push("noqa-on-defect", d, sel, rng.chance(1, 2), sql, "noqa-on-defect".into());
+        }
+    }
+    // 13. common table expressions that refer to themselves or to each other (directly, through a sibling, through a
+    //     derived table; aliased or not; wildcard, qualified wildcard or named columns): query analysis follows such references
+    {
+        let n = if thorough { 3000 } else { 400 };
+        let names = ["a", "b", "c", "nums"];
+        for i in 0..n {
+            let d = if i % 2 == 0 { DIALECTS[rng.below(DIALECTS.len())] } else { "ansi" };
+            let k = rng.range(1, 3);
+            let src = |rng: &mut Rng, own: usize| -> String {
+                // a source for a CTE body: itself, another CTE, a base table, or a derived table over one of those
+                let t = match rng.below(5) {
+                    0 | 1 => names[own].to_string(),
+                    2 => names[rng.below(k)].to_string(),
+                    3 => "base_t".to_string(),
+                    _ => format!("(SELECT * FROM {})", names[rng.below(k)]),
+                };
+                match rng.below(4) {
+                    0 => format!("{} AS x", t),
+                    1 => format!("{} x", t),
+                    _ => if t.starts_with('(') { format!("{} AS d", t) } else { t },
+                }
+            };
+            let cols = |rng: &mut Rng| -> &'static str { ["*", "x.*", "a, b", "*, 1 AS one", "x.a", "1 AS n"][rng.below(6)] };
+            let mut ctes = vec![];
+            for j in 0..k {
+                let body = if rng.chance(1, 4) {
+                    format!("SELECT {} FROM {} UNION ALL SELECT {} FROM {}", cols(&mut rng), src(&mut rng, j), cols(&mut rng), src(&mut rng, j))
+                } else if rng.chance(1, 5) {
+                    format!("SELECT {} FROM {} JOIN {} ON 1 = 1", cols(&mut rng), src(&mut rng, j), src(&mut rng, j))
+                } else {
+                    format!("SELECT {} FROM {}", cols(&mut rng), src(&mut rng, j))
+                };
+                ctes.push(format!("{} AS ({})", names[j], body));
+            }
+            let rec = if rng.chance(1, 3) { "RECURSIVE " } else { "" };
+            let own = rng.below(k);
+            let main_src = src(&mut rng, own);
+            let sql = format!("WITH {}{}\nSELECT {} FROM {}\n", rec, ctes.join(",\n"), cols(&mut rng), main_src);
+            let sel = ["all", "ambiguous", "AM04", "structure", "references", "aliasing", "core"][rng.below(7)];
+            push("cte-cycles", d, sel, rng.chance(1, 2), sql, "cte-cycles".into());
+        }
     }
     // 11. grammar-driven sentences: for every grammar node reachable from FileSegment in each dialect, a shortest
     //     token sequence that leads the parser to it (complete / cut after the node / foreign token at the node)
